@@ -24,7 +24,7 @@ from core import cz, cq, clist, ctuple, copt
 
 PAIRS = [(480, 500000), (96, 600000), (1000, 333333), (1, 10 ** 6), (384, 250000), (960, 1000000)]
 THRS = [0, 1, 63, 64, 126, 127]
-EXPECT_MIN = 1
+EXPECT_MIN = 12
 F32_TOL = F(1, 2 ** 20)  # relative tolerance for the float32 columns of note_array
 
 
